@@ -96,14 +96,14 @@ fn mesh1d_case(nodes: &[f64], nvars: usize, pat: usize, exact: bool, acc: &mut A
     Ok(())
 }
 
-fn roundtrip_case(nodes: &[f64], nvars: usize, prec: usize, big: bool, dir: &std::path::Path, tag: u64) -> Result<(), String> {
+fn roundtrip_case(nodes: &[f64], nvars: usize, prec: usize, big: bool, dir: &std::path::Path, tag: u64, scale: f64) -> Result<(), String> {
     let n = nodes.len();
     let mut m = Mesh1D::<f64, f64>::new(Vector::create(nodes.to_vec()), nvars);
     // `big`: values of seven to sixteen digits before the decimal point, of both signs (columns of a fixed width would run together)
     let bigs = [1234567.0, -87654321.0, 9007199254740992.0, -1000000.0];
     for i in 0..n {
         for v in 0..nvars {
-            m[i][v] = val(0, i, v) + 0.123456789012 * (v as f64 + 1.0) + if big { bigs[(i + 2 * v) % 4] } else { 0.0 };
+            m[i][v] = (val(0, i, v) + 0.123456789012 * (v as f64 + 1.0) + if big { bigs[(i + 2 * v) % 4] } else { 0.0 }) * scale;
         }
     }
     let path = dir.join(format!("mesh_{}_{}.dat", tag, prec));
@@ -131,7 +131,7 @@ fn roundtrip_case(nodes: &[f64], nvars: usize, prec: usize, big: bool, dir: &std
             }
             // a consumer of the whole mesh: the quadrature runs over the nodes of the file only
             let scale = (0..n).map(|i| m[i][0].abs()).fold(1.0, f64::max) * (nodes[n - 1] - nodes[0]).abs().max(1.0);
-            ensure!((r.trapezium(0) - m.trapezium(0)).abs() <= 4.0 * (n as f64) * tol * scale, "trapezium after read() into a mesh of {} nodes: {} expected {}", target, r.trapezium(0), m.trapezium(0));
+            ensure!((r.trapezium(0) - m.trapezium(0)).abs() <= 4.0 * (n as f64) * tol * scale + 16.0 * f64::EPSILON * scale, "trapezium after read() into a mesh of {} nodes: {} expected {}", target, r.trapezium(0), m.trapezium(0));
         }
     }
     // a second output() to the SAME path with less text (fewer nodes, lower precision): the file holds the new mesh only
@@ -616,6 +616,55 @@ fn main() {
             );
         }
     }
+    // FINE cells far from the origin (|x| / h up to 2^32): the interpolant l + (r - l) (x - x_l) / h is accurate to a few ulps of the data
+    // wherever the cell lies; a form that multiplies the data by the coordinates (l x_r - r x_l + (r - l) x) / h loses |x| / h digits
+    {
+        let origins: [f64; 6] = [4096.0, 10.0, -1e6, 0.0, 1.0 / 3.0, 123456.789];
+        let hs: [f64; 4] = [2f64.powi(-9), 2f64.powi(-12), 1e-3, 0.25];
+        let ts: [f64; 7] = [0.5, 0.25, 0.1, 0.3, 0.7, 0.9, 1.0 / 3.0];
+        ctx.lattice(
+            "1-D meshes with fine cells far from the origin: origins {4096,10,-1e6,0,1/3,123456.789} x cell widths {2^-9,2^-12,1e-3,1/4} x 3 data sets x 2 variables: 7 interior points of each of the 3 cells within 64 ulps of the data",
+            (origins.len() * hs.len() * 3) as u64,
+            |idx| format!("origin#{} h#{} data#{}", idx / 12, (idx / 3) % 4, idx % 3),
+            |idx, acc| {
+                let (o, h, di) = (origins[(idx / 12) as usize], hs[((idx / 3) % 4) as usize], (idx % 3) as usize);
+                let nodes: Vec<f64> = (0..4).map(|k| o + k as f64 * h).collect();
+                if (o.abs() / h) > 1e4 {
+                    acc.nontriv("cell width below 1e-4 of the coordinate");
+                } else {
+                    acc.nontriv("fine-cell grid");
+                }
+                judge(acc, idx, || format!("fine far grid {:?} data#{}", nodes, di), || {
+                    let mut m = Mesh1D::<f64, f64>::new(Vector::create(nodes.clone()), 2);
+                    let data: [[f64; 4]; 3] = [[1.0, 1.7, -0.3, 2.5], [1000.25, 1000.5, 999.0, 1001.0], [0.0, 3.0, 3.0, -7.0]];
+                    for i in 0..4 {
+                        m[i][0] = data[di][i];
+                        m[i][1] = -2.0 * data[di][3 - i];
+                    }
+                    for cell in 0..3 {
+                        let (xl, xr) = (nodes[cell], nodes[cell + 1]);
+                        let hh = xr - xl;
+                        for &t in ts.iter() {
+                            let x = xl + t * hh;
+                            if !(x > xl && x < xr) {
+                                continue;
+                            }
+                            let tt = (x - xl) / hh;
+                            let g = m.get_interpolated_vars(x);
+                            ensure!(g.size() == 2, "interpolation returned {} variables", g.size());
+                            for v in 0..2 {
+                                let (l, r) = if v == 0 { (data[di][cell], data[di][cell + 1]) } else { (-2.0 * data[di][3 - cell], -2.0 * data[di][2 - cell]) };
+                                let want = l + (r - l) * tt;
+                                let scale = l.abs().max(r.abs());
+                                ensure!((g[v] - want).abs() <= 64.0 * f64::EPSILON * scale, "interpolation in the cell [{:?}, {:?}] at t = {}: variable {} = {:?} but the line gives {:?} (off by {:.0} ulps of the data)", xl, xr, tt, v, g[v], want, (g[v] - want).abs() / (f64::EPSILON * scale));
+                            }
+                        }
+                    }
+                    Ok(())
+                });
+            },
+        );
+    }
     // 1-D exhaustive spacing words
     for n in 2..=ctx.pick(7, 9) {
         let words = pow(4, (n - 1) as u32);
@@ -718,9 +767,35 @@ fn main() {
             let word: Vec<f64> = (0..n - 1).map(|k| SP[(k * 3 + 1) % 4] * if fine { 0.004 } else { 1.0 }).collect();
             let nodes = nodes_from(&word, -0.375);
             acc.nontriv("round trip");
-            judge(acc, idx, || format!("round trip n={} nvars={} precision={} fine={} big={}", n, nvars, prec, fine, big), || roundtrip_case(&nodes, nvars, prec, big, &dir, idx));
+            judge(acc, idx, || format!("round trip n={} nvars={} precision={} fine={} big={}", n, nvars, prec, fine, big), || roundtrip_case(&nodes, nvars, prec, big, &dir, idx, 1.0));
         },
     );
+    // LARGE files (10 kB .. 200 kB): long tokens (60 or 150 decimals, values of 1e200 printed in full) and many nodes - a reader with a
+    // fixed buffer, or one that takes a single read() for the whole file, sees the first kilobytes only
+    {
+        let ncs = [8usize, 12, 40, 200];
+        let lp = [12usize, 60, 150];
+        ctx.lattice(
+            "Mesh1D output -> read round trip, large files: node counts {8,12,40,200} x nvars {1,4} x precision {12,60,150} x {values below 40, values of 1e200}",
+            (ncs.len() * 2 * lp.len() * 2) as u64,
+            |idx| format!("n={} nvars={} precision={} huge={}", ncs[(idx / 12) as usize], [1, 4][((idx / 6) % 2) as usize], lp[((idx / 2) % 3) as usize], idx % 2),
+            |idx, acc| {
+                let n = ncs[(idx / 12) as usize];
+                let nvars = [1usize, 4][((idx / 6) % 2) as usize];
+                let prec = lp[((idx / 2) % 3) as usize];
+                let huge = idx % 2 == 1;
+                let word: Vec<f64> = (0..n - 1).map(|k| SP[(k * 3 + 1) % 4]).collect();
+                let nodes = nodes_from(&word, -0.375);
+                let bytes = n * (nvars + 1) * (prec + 3 + if huge { 200 } else { 2 });
+                if bytes > 8192 {
+                    acc.nontriv("file above 8 kB");
+                } else {
+                    acc.nontriv("round trip");
+                }
+                judge(acc, idx, || format!("large round trip n={} nvars={} precision={} huge={}", n, nvars, prec, huge), || roundtrip_case(&nodes, nvars, prec, false, &dir, 100_000 + idx, if huge { 1e200 } else { 1.0 }));
+            },
+        );
+    }
     let _ = std::fs::remove_dir_all(&dir);
     // 2-D
     let words3 = |n: usize, w: usize| -> Vec<f64> { (0..n - 1).map(|k| SP[(k * (w + 1) + w) % 4]).collect() };
